@@ -224,7 +224,7 @@ func (f *MemFile) Read(b []byte) (n int, err error) {
 
 	f.at += int64(n)
 
-	if n == 0 {
+	if n == 0 && len(b) != 0 {
 		return 0, io.EOF
 	}
 
